@@ -8,16 +8,30 @@ import random, re, sys, os
 
 HERE = os.path.dirname(os.path.abspath(__file__))
 
-def kebab(name):
+def case_words(name, sep):
+    """the documented naming rule: an ASCII upper-case letter starts a new word (separator + lower case) unless it is the very first
+    character of the result; `_` and `-` become the separator; everything else is copied"""
     name = name[2:] if name.startswith('r#') else name
-    return name.replace('_', '-')
+    out = ''
+    for c in name:
+        if 'A' <= c <= 'Z':
+            if out != '':
+                out += sep
+            out += c.lower()
+        elif c in '-_':
+            out += sep
+        else:
+            out += c
+    return out
+
+def kebab(name):
+    return case_words(name, '-')
 
 def snake(type_name):
-    s = re.sub(r'(?<!^)(?=[A-Z])', '_', type_name).lower()
-    return s
+    return case_words(type_name, '_')
 
 def variant_kebab(v):
-    return re.sub(r'(?<!^)(?=[A-Z])', '-', v).lower()
+    return case_words(v, '-')
 
 class F:
     def __init__(self, name, ty, naming=(), cons=None, post=(), doc=None):
@@ -259,7 +273,7 @@ class Member:
         return '    pub fn reference() -> %s {\n        #[allow(unused_imports)]\n        use ::bpaf::Parser;\n        %s\n    }\n' % (ret, body)
 
     def text(self):
-        return 'pub mod %s {\n    #![allow(dead_code, unused_imports, non_snake_case)]\n    use bpaf::*;\n    use std::path::PathBuf;\n    pub fn positive(x: &usize) -> bool { *x > 0 }\n    pub fn level() -> impl Parser<f64> { ::bpaf::long("level").argument::<f64>("LVL") }\n    pub const MSG: &str = "must be positive";\n%s\n%s}\n' % (self.mod, self.input(), self.reference())
+        return 'pub mod %s {\n    #![allow(dead_code, unused_imports, non_snake_case, non_camel_case_types)]\n    use bpaf::*;\n    use std::path::PathBuf;\n    pub fn positive(x: &usize) -> bool { *x > 0 }\n    pub fn level() -> impl Parser<f64> { ::bpaf::long("level").argument::<f64>("LVL") }\n    pub const MSG: &str = "must be positive";\n%s\n%s}\n' % (self.mod, self.input(), self.reference())
 
     def derived_fn(self):
         for t in self.top:
@@ -322,6 +336,11 @@ def base_family():
     M.append(Member('b_docs_indent', 'struct', 'DocsIndent', top=['options'], doc='Description\n\n\n    frob [-v] FILE...\nmore header\n\n\n  - first footer item\n  - second footer item', fields=[F('a', 'bool')]))
     M.append(Member('b_docs_indent_cmd', 'enum', 'IndentCmd', variants=[
         dict(name='Run', shape='named', attrs=['command'], doc='run it\n\n\n    run [--fast]\n\n\n  * footer bullet', fields=[F('fast', 'bool')])]))
+    # implicit names follow the word rule, whatever the style of the identifier
+    M.append(Member('b_cmd_multiword', 'struct', 'CheckConnection', top=['command'], doc='check it', fields=[F('retry_count', 'u32')]))
+    M.append(Member('b_case_rule', 'struct', 'CaseRule', top=['options'], fields=[F('max_KiB', 'u32'), F('HTTPProxy', 'Option<String>'), F('x_Y', 'bool', naming=[('long', None), ('short', None)])]))
+    M.append(Member('b_case_rule_enum', 'enum', 'Target', variants=[
+        dict(name='Aarch64_Linux', shape='unit'), dict(name='X86', shape='unit'), dict(name='RiscV_BareMetal', shape='unit', naming=[('long', None)])]))
     # shapes are recognised on the last path segment
     M.append(Member('b_qualified_types', 'struct', 'Qualified', top=['options'], fields=[
         F('verbose', 'std::primitive::bool', doc='a switch'), F('level', 'std::option::Option<u32>'), F('names', '::std::vec::Vec<String>'), F('plain', '::core::primitive::bool')]))
